@@ -37,14 +37,15 @@ def parse(out):
 
 
 def run_shards(chk, exe, base_args, shards, timeout, env=None, seed_arg="--seed", abort_key=None,
-               prefix_cmd=(), hang_key=None):
+               prefix_cmd=(), hang_key=None, max_workers=None, deadlock_key=None):
     """Run `shards` copies of the harness with derived seeds; merge results into chk.
 
     Returns (stats, statd).  abort_key: if set, a child that dies on a signal is a
     violation with that key (the property forbids aborting); otherwise a harness failure.
     hang_key: if set, a shard that exceeds the watchdog twice is a violation with that key.  Only for harnesses whose
     work per case is bounded and whose watchdog is set far (>= 20x) above the measured run time, so that exceeding it
-    twice means the code under test stopped terminating (bounded-progress restatement of "always terminates")."""
+    twice means the code under test stopped terminating (bounded-progress restatement of "always terminates").
+    deadlock_key: if set, exit status 97 (raised by the hook detectors inside the code under test) is a violation."""
     stats, statd = {}, {}
     jobs = []
     for i in range(shards):
@@ -58,7 +59,9 @@ def run_shards(chk, exe, base_args, shards, timeout, env=None, seed_arg="--seed"
             r = common.run(cmd, timeout=timeout, env=env)
         return job, r
 
-    with cf.ThreadPoolExecutor(max_workers=min(common.NCPU, max(1, shards))) as ex:
+    # max_workers: harnesses that start many busy-waiting threads themselves must not be oversubscribed (a spinning
+    # thread whose partner is descheduled makes the run time unpredictable and the watchdog meaningless)
+    with cf.ThreadPoolExecutor(max_workers=max_workers or min(common.NCPU, max(1, shards))) as ex:
         for (i, s, cmd), r in ex.map(one, jobs):
             viols, st, sd, samples, done = parse(r.out)
             for k, v in st.items():
@@ -75,6 +78,11 @@ def run_shards(chk, exe, base_args, shards, timeout, env=None, seed_arg="--seed"
                               {"cmd": cmdline})
             elif r.timed_out:
                 chk.inconclusive_because("watchdog (%ds) fired twice for: %s" % (timeout, cmdline))
+            elif r.rc == 97 and deadlock_key:
+                # the hooks' own logical detectors (a blocking lock that was not obtained in CMI_VERIF_LOCK_SPINS
+                # consecutive attempts, or a permanent no-progress state) end the process with status 97
+                chk.violation(deadlock_key, "the code under test stopped making progress: %s | %s" % ((r.err or "").strip()[-300:], cmdline),
+                              {"cmd": cmdline})
             elif r.rc not in (0, 1) or not done:
                 tail = (r.err or "")[-1500:]
                 if abort_key and r.rc is not None and r.rc < 0:
